@@ -62,6 +62,7 @@ func init() {
 			"R7 a nil return happens only after the old key was destroyed or the previous primary version name was found empty. R5 Bootstrap: Finalize only after both signing steps succeeded, nil return ⇒ Finalize:ok. R6 the newly created key (operand derived from CreateNewSigningKeyVersion) is never destroyed once Finalize succeeded. R8 (shared with C11.R7) the storage-backed authority's certificate upload returns success after the gate only where the key version's manifest entry was found or appended, so a rotation retried after a fault cannot finalize a primary key that has no listed certificate. " +
 			"Every fault position of the property's quantifier is the :fail edge of one of the tracked calls; crash points between calls are covered by R1's ordering. " +
 			"R9 (= C11.R1/R2/R6) Finalize of the storage-backed authority writes the manifest last and never after a failed upload, and storage/ops.WriteFile returns nil only after Writer, Write and Close all succeeded — otherwise rotate.Key would destroy the old key although the new primary was not durably recorded. " +
+			"R11 every implementation of ManagerInterface.CreateNewSigningKeyVersion returns success only after a key-creating call (Create*/Generate*) succeeded in that call. " +
 			"R10 context continuity: in the call closure of rotate.Key / rotate.Bootstrap no call receives a context rooted at context.Background()/TODO() (the operator's options, e.g. overwrite permission for the leftovers of a failed attempt, travel in the context). " +
 			"Not covered: that the surviving state works (reload + sign), the later fault-free rotation, KMS/HSM behaviour.",
 		Assumptions: []string{"go/types, go/ssa, VTA call graph", "multierr.Combine/Append return nil iff all arguments are nil", "fmt.Errorf/errors.New return non-nil", "interface methods of ManagerInterface/CertificateAuthority are opaque events"},
@@ -334,6 +335,65 @@ func runC10(c *Ctx) {
 	// context.TODO) would silently drop them (for instance the permission to overwrite the leftovers of a failed
 	// attempt, on which the "later fault-free rotation succeeds" clause rests).
 	c.contextContinuity("R10", []*ssa.Function{key, boot})
+
+	// R11: every implementation of ManagerInterface.CreateNewSigningKeyVersion returns, on success, a key version it
+	// created in this call: a nil-error return follows a successful key-creating call (a method or function whose
+	// name starts with Create or Generate — the signer's GenerateSigningKey, the KMS client's CreateCryptoKeyVersion,
+	// the embedded manager's own CreateNewSigningKeyVersion). Handing back a remembered version would let a retried
+	// rotation certify the current primary as "new" and then destroy it as "previous".
+	{
+		nImpl := 0
+		for _, f := range c.P.RepoFunctions() {
+			if c.isTestFunc(f) || f.Name() != "CreateNewSigningKeyVersion" || f.Signature.Recv() == nil || f.Blocks == nil || errIndex(f.Signature) < 0 {
+				continue
+			}
+			nImpl++
+			const bMade uint = 0
+			r := &esp.Rule{Name: "C10.R11"}
+			region := map[*ssa.Function]bool{}
+			for _, g := range unexportedRegion(f) {
+				if g != f {
+					region[g] = true
+				}
+			}
+			r.Relevant = func(g *ssa.Function) bool { return region[g] }
+			r.Match = func(in ssa.Instruction) []esp.Ev {
+				call, ok := in.(ssa.CallInstruction)
+				if !ok {
+					return nil
+				}
+				name := ""
+				if call.Common().IsInvoke() {
+					name = call.Common().Method.Name()
+				} else if cal := call.Common().StaticCallee(); cal != nil && !region[cal] {
+					name = cal.Name()
+				}
+				if strings.HasPrefix(name, "Create") || strings.HasPrefix(name, "Generate") {
+					return []esp.Ev{{ID: 0, Name: "key created by " + callName(call), ErrIdx: errIndex(call.Common().Signature()), BoolIdx: -1}}
+				}
+				return nil
+			}
+			r.Step = func(x *esp.Ctx, s esp.State, ev esp.Ev, ph esp.Phase) (esp.State, string) {
+				if ph == esp.Ok || (ph == esp.AtCall && ev.ErrIdx < 0) {
+					return s.Set(bMade), ""
+				}
+				return s, ""
+			}
+			ei := errIndex(f.Signature)
+			r.AtReturn = func(x *esp.Ctx, s esp.State, rets []esp.Abs) string {
+				if rets[ei] == esp.NonZero || s.Has(bMade) {
+					return ""
+				}
+				return "R11: the key manager may return a key version without having created one in this call: a retried rotation can be handed an existing version (the current primary), certify it as new and destroy it as the previous key"
+			}
+			e := c.engine(r)
+			e.Run(f, esp.State{})
+			if c.reportEngine(e, "R11", func(v *esp.Violation) string { return load.FuncName(f) + ":creates what it returns" }) == 0 {
+				c.S.OK("R11", load.FuncName(f)+":creates what it returns", c.pos(f.Pos()), fmt.Sprintf("success only after a key-creating call succeeded (%d configurations)", e.Configs), true)
+			}
+		}
+		c.S.Floor("R11", "implementations of CreateNewSigningKeyVersion", 2, nImpl)
+	}
 }
 
 // contextContinuity: in the repo call closure of roots, no call receives a context.Context that originates from
